@@ -427,6 +427,32 @@ def run(ctx):
                             rows=sum(len(next(iter(r.values()))) for r in rows)))
         if os.path.exists(path):
             os.unlink(path)
+    # ---- "a random subset without repeats": small batches out of a large table, many seeds. A draw *with* replacement of
+    # 70 rows out of 5000 repeats a row with probability 0.39 per call, 40 calls all clean with probability 3e-9.
+    if ctx.replay is None:
+        from thejoker import JokerSamples
+        from thejoker.utils import read_batch
+        big = JokerSamples()
+        Nb = 5000
+        big["P"] = (np.arange(Nb) + 1.0) * u.day
+        big["e"] = np.linspace(0, 0.9, Nb)
+        bpath = os.path.join(ctx.tmpdir, "c12_big.hdf5")
+        big.write(bpath, overwrite=True)
+        rngb = ctx.rng(777)
+        for k in range(ctx.n(40, 200)):
+            size = int(rngb.choice([3, 20, 70, 70, 78]))
+            got = np.asarray(read_batch(bpath, ["P", "e"], size, rng=np.random.default_rng(int(rngb.integers(0, 2 ** 31)))))
+            ctx.evaluations += 1
+            ctx.distinct.add(repr(("random-batch-large-table", size)))
+            tags = np.round(got[:, 0]).astype(int)
+            if got.shape != (size, 2) or np.any(tags < 1) or np.any(tags > Nb) or not np.allclose(got[:, 1], np.linspace(0, 0.9, Nb)[tags - 1]):
+                ctx.violation("read_batch-row-not-in-table", "random batch of %d out of %d: rows are not table rows" % (size, Nb),
+                              dict(size=size, N=Nb))
+                break
+            if len(set(tags.tolist())) != size:
+                ctx.violation("read_batch-random-repeats", "random batch of %d rows out of %d repeats a row (%d distinct)"
+                              % (size, Nb, len(set(tags.tolist()))), dict(size=size, N=Nb, call=k))
+                break
     # FITS round trips
     nf = ctx.n(60, 300)
     for j in ctx.cases(nf):
